@@ -208,6 +208,15 @@ def gen_tree(rng: random.Random) -> dict[str, Any]:
         if d + "/.flowmarkignore" not in entries:
             rules = rng.sample(["a.md", "b.md", "README*", "*.mdx", "index.*", "notes.md", "big.md", "x/", "sub/"], rng.randint(1, 3))
             entries[d + "/.flowmarkignore"] = {"txt": "\n".join(rules) + "\n"}
+    # an ignore file may itself be a symlink to a shared file kept elsewhere; its rules are still
+    # relative to the directory in which the link sits
+    for path in [k for k in entries if k.endswith(".flowmarkignore") and "txt" in entries[k]]:
+        if rng.random() < 0.12:
+            n = sum(1 for k in entries if k.startswith("outside/ign"))
+            store = f"outside/ign{n}.txt"
+            entries[store] = {"txt": entries[path]["txt"]}
+            depth = path.count("/")
+            entries[path] = {"l": "../" * depth + store}
     return {"entries": entries, "limit": limit}
 
 
